@@ -72,9 +72,20 @@ func cssUtilImpl(c Case) []int64 {
 
 // byte classes of the lexer: one representative per class that any consume* function distinguishes
 var cssAlphaFull = []byte{'a', 'u', 'e', 'F', '-', '+', '.', '1', '\\', '(', ')', '"', '\'', ' ', '\n', '\r',
-	'/', '*', '#', '@', '|', '=', '<', '!', '>', '?', '%', 0, 0xE2, ':', '~', '_'}
+	'/', '*', '#', '@', '|', '=', '<', '!', '>', '?', '%', 0, 0xE2, ':', '~', '_', '\f', '\t'}
 var cssAlphaCore = []byte{'a', 'u', 'e', '-', '+', '.', '1', '\\', '(', ')', '"', ' ', '\n', '/', '*', 0, 0xE2, '?'}
 var cssAlphaIdent = []byte{'a', '-', '\\', '1', 'f', ' ', '\n', 0, 0xC3, 0xE2, 0xF0, 0x80, '(', ')', '"', '_', 0x7F, '\t', '\r'}
+
+var cssBoundary = []string{
+	"u+123456", "u+1234567", "u+12345?", "u+123456?", "u+??????", "u+???????", "U+123456-123456", "U+123456-1234567",
+	"U+1234567-1", "u+-1", "u+1-", "u+1-g", "u+?-1", "u+1?-2", "u+g",
+	"\\12345", "\\123456", "\\1234567", "a\\12345 6", "a\\123456 7", "a\\1234567 8", "\\12345\n6", "\\1\r\n2", "\\\xe2\x82\xac", "\\\xe2\x82", "\\\xf0\x90\x8d", "\\\xc3",
+	"1e5", "1e+5", "1e-5", "1e+", "1e-", "1e", "1E5", "1.5e5", "1.e5", "1.5.5", ".5", ".5e5", "+.5", "-.5", "+.", "-.", "+5", "-5", "+-5", "1.", "1..5",
+	"-->", "--", "--a", "-a", "-1", "-\\a", "--\\", "<!--", "<!-", "<!", "||", "|=", "|", "~=", "^=", "$=", "*=",
+	"url(", "url()", "url( )", "url(a", "url(a)", "url( a )", "url(a b)", "url(a\\)", "url(a\\))", "url('a')", "url('a' )", "url('a'b)", "url('a\nb)", "url(a\"b)", "url(a(b)", "URL(a)", "uRl(a)", "\\url(a)", "u\\rl(a)", "url\\(a)", "urlx(a)", "ur(a)",
+	"\"a\"", "\"a", "\"a\\", "\"a\\\nb\"", "\"a\\\r\nb\"", "\"a\nb\"", "'a\\'b'", "\"\\", "/**/", "/*", "/* *", "/* */", "/**", "/*/", "/***/",
+	"#a", "#", "#-", "#1", "#\\a", "#\\\n", "@a", "@", "@-a", "@--a", "@-", "@1", "@\\a",
+}
 
 func cssCase(fn string, b []byte, note string) Case {
 	if note == "" {
@@ -568,7 +579,15 @@ var cssLexModel = &Model{
 				}
 			}
 		}
-		n := 6000
+		// boundary cases of the counting loops and of the look-ahead
+		for _, s := range cssBoundary {
+			emit(cssCase("csslex", []byte(s), ""))
+			for _, c := range cssAlphaCore {
+				emit(cssCase("csslex", append([]byte(s), c), ""))
+				emit(cssCase("csslex", append([]byte(s), ' ', c), ""))
+			}
+		}
+		n := 12000
 		if tier == "thorough" {
 			n = 300000
 		}
